@@ -239,6 +239,22 @@ func (vc *VC) Assume(guard, fact *Term) {
 	if vc.frozen > 0 {
 		return
 	}
+	// (forall x. P) => Q with Q quantifier-free is assumed as its contrapositive  not Q => exists x. not P
+	{
+		var pre []*Term
+		f := fact
+		for f.Op == "=>" && len(f.Args) == 2 && !hasQuant(f.Args[0]) {
+			pre = append(pre, f.Args[0])
+			f = f.Args[1]
+		}
+		if f.Op == "=>" && len(f.Args) == 2 && hasQuant(f.Args[0]) && !hasQuant(f.Args[1]) {
+			f = Implies(Not(f.Args[1]), Not(f.Args[0]))
+			for i := len(pre) - 1; i >= 0; i-- {
+				f = Implies(pre[i], f)
+			}
+			fact = f
+		}
+	}
 	// an assumed existential is skolemised here (named witnesses esk!N), so that the witness is a constant the
 	// goal-directed instantiation can use
 	{
@@ -248,19 +264,40 @@ func (vc *VC) Assume(guard, fact *Term) {
 			pre = append(pre, f.Args[0])
 			f = f.Args[1]
 		}
+		// A or exists x. P  is  not A => exists x. P
+		if f.Op == "or" {
+			var ex *Term
+			var rest []*Term
+			for _, d := range f.Args {
+				if d.Op == "exists" && ex == nil {
+					ex = d
+				} else {
+					rest = append(rest, d)
+				}
+			}
+			if ex != nil && !hasQuant(Or(rest...)) {
+				pre = append(pre, Not(Or(rest...)))
+				f = ex
+			}
+		}
 		// also look one level into a conjunction-free body: (exists ...) directly
 		if f.Op == "exists" && len(f.QVars) > 0 {
-			body := f.Args[0].String()
+			b := f.Args[0]
 			for _, v := range f.QVars {
-				sk := vc.Fresh("esk", v[1])
-				body = replaceSymbol(body, v[0], sk.Name)
+				b = substT(b, v[0], vc.Fresh("esk", v[1]))
 			}
-			ot := &Term{Op: "opaque", Sort: SBool, str: body}
 			g := guard
 			for _, p := range pre {
 				g = And(g, p)
 			}
-			vc.items = append(vc.items, Item{Assert: Implies(g, ot)})
+			// conjuncts separately, so that universally quantified conjuncts become top-level universals
+			if b.Op == "and" {
+				for _, c := range b.Args {
+					vc.Assume(g, c)
+				}
+			} else {
+				vc.Assume(g, b)
+			}
 			return
 		}
 	}
@@ -335,15 +372,24 @@ func hasQuant(t *Term) bool {
 	if t == nil {
 		return false
 	}
-	if t.Op == "forall" || t.Op == "exists" {
-		return true
+	if t.hq != 0 {
+		return t.hq == 2
 	}
-	for _, a := range t.Args {
-		if hasQuant(a) {
-			return true
+	r := t.Op == "forall" || t.Op == "exists"
+	if !r {
+		for _, a := range t.Args {
+			if hasQuant(a) {
+				r = true
+				break
+			}
 		}
 	}
-	return false
+	if r {
+		t.hq = 2
+	} else {
+		t.hq = 1
+	}
+	return r
 }
 
 // splitGoal flattens conjunctions under implications when they contain quantified conjuncts, so that each
@@ -510,31 +556,113 @@ func (o *Obligation) SMT(withModel bool) string {
 		body.WriteString("(assert " + o.Extra.String() + ")\n")
 	}
 	body.WriteString("(assert " + o.Guard.String() + ")\n")
-	// goal-directed skolemisation: for a goal  A => forall x. G(x)  assert A, not G(sk), and the instances at sk
-	// of the universally quantified assumptions over the same sort (triggers with arithmetic inside, such as
-	// s[off+i], do not fire by E-matching)
-	goal := o.Goal
-	var hyps []*Term
-	for goal.Op == "=>" && len(goal.Args) == 2 {
-		hyps = append(hyps, goal.Args[0])
-		goal = goal.Args[1]
-	}
-	if goal.Op == "forall" && len(goal.QVars) > 0 && !o.ExpectSat {
-		for _, h := range hyps {
-			body.WriteString("(assert " + h.String() + ")\n")
+	// Goal-directed instantiation at term level (E-matching does not fire on triggers with arithmetic inside,
+	// such as s[off+i]). The negated goal is put in negation normal form and its existentials are skolemised;
+	// its universals are instantiated at the witness constants (skolem constants, witnesses of assumed
+	// existentials, index-like constants of the function); the universal assumptions are instantiated at the
+	// skolem constants; existentials appearing in instances are skolemised in turn. Every added assertion is
+	// a consequence of the negated goal and the assumptions, so validity is unchanged.
+	if o.ExpectSat || !hasQuantAny(o.Goal, items, keep) {
+		body.WriteString("(assert (not " + o.Goal.String() + "))\n")
+	} else {
+		type skc struct{ name, sort string }
+		nsk := 0
+		var gconsts []skc // constants introduced by the (negated) goal and its instances
+		mk := func(list *[]skc, prefix string) func(sort string) *Term {
+			return func(sort string) *Term {
+				n := fmt.Sprintf("%s!%d", prefix, nsk)
+				nsk++
+				body.WriteString("(declare-const " + n + " " + sort + ")\n")
+				*list = append(*list, skc{n, sort})
+				return Sym(n, sort)
+			}
 		}
-		gb := goal.Args[0].String()
-		type skv struct{ name, sort string }
-		var sks []skv
-		for i, v := range goal.QVars {
-			sk := fmt.Sprintf("gsk!%d", i)
-			body.WriteString("(declare-const " + sk + " " + v[1] + ")\n")
-			gb = replaceSymbol(gb, v[0], sk)
-			sks = append(sks, skv{sk, v[1]})
+		ng := skolemPos(Not(o.Goal), mk(&gconsts, "gsk"))
+		body.WriteString("(assert " + ng.String() + ")\n")
+		var univ []*Term
+		var collect func(t *Term)
+		collect = func(t *Term) {
+			switch t.Op {
+			case "and":
+				for _, a := range t.Args {
+					collect(a)
+				}
+			case "forall":
+				univ = append(univ, t)
+			}
 		}
-		n := 0
+		collect(ng)
+		// witness-like constants of the function
+		var wconsts []skc
 		for i, it := range items {
-			if !keep[i] || it.Assert == nil || n > 200 {
+			if !keep[i] || it.Assert != nil || it.Raw != "" {
+				continue
+			}
+			if strings.HasPrefix(it.Name, "esk!") || strings.HasPrefix(it.Name, "i!") || strings.HasPrefix(it.Name, "rangeindex!") || strings.HasPrefix(it.Name, "j!") || strings.HasPrefix(it.Name, "idx!") {
+				wconsts = append(wconsts, skc{it.Name, it.Sort})
+			}
+		}
+		var iconsts []skc // constants introduced by instances of the goal's universals
+		m := 0
+		for _, u := range univ {
+			cands := append(append([]skc{}, gconsts...), wconsts...)
+			// E-matching by hand: ground terms of the assumptions that occur where a bound variable occurs in the
+			// goal (same uninterpreted function symbol, same argument position)
+			for qi, qv := range u.QVars {
+				_ = qi
+				want := map[string]bool{}
+				argPositions(u.Args[0], qv[0], want)
+				if len(want) == 0 {
+					continue
+				}
+				seen := map[string]bool{}
+				for i, it := range items {
+					if !keep[i] || it.Assert == nil {
+						continue
+					}
+					groundArgsAt(it.Assert, want, func(t *Term) {
+						if t.Sort != qv[1] || len(seen) > 12 {
+							return
+						}
+						s := t.String()
+						if seen[s] || strings.Contains(s, " q.") || strings.Contains(s, "(q.") || strings.HasPrefix(s, "q.") {
+							return
+						}
+						seen[s] = true
+						cands = append(cands, skc{s, t.Sort})
+					})
+				}
+			}
+			switch len(u.QVars) {
+			case 1:
+				for _, c := range cands {
+					if c.sort != u.QVars[0][1] || m > 80 {
+						continue
+					}
+					inst := skolemPos(substT(u.Args[0], u.QVars[0][0], Sym(c.name, c.sort)), mk(&iconsts, "isk"))
+					body.WriteString("(assert " + inst.String() + ")\n")
+					m++
+				}
+			case 2:
+				k := 0
+				for _, a := range cands {
+					for _, b := range cands {
+						if a.sort != u.QVars[0][1] || b.sort != u.QVars[1][1] || k > 36 {
+							continue
+						}
+						inst := substT(substT(u.Args[0], u.QVars[0][0], Sym(a.name, a.sort)), u.QVars[1][0], Sym(b.name, b.sort))
+						body.WriteString("(assert " + skolemPos(inst, mk(&iconsts, "isk")).String() + ")\n")
+						k++
+					}
+				}
+			}
+		}
+		// universal assumptions at the goal's constants
+		var sink []skc
+		n := 0
+		targets := append(append([]skc{}, gconsts...), iconsts...)
+		for i, it := range items {
+			if !keep[i] || it.Assert == nil || n > 300 || len(targets) == 0 {
 				continue
 			}
 			f := it.Assert
@@ -546,106 +674,32 @@ func (o *Obligation) SMT(withModel bool) string {
 			if f.Op != "forall" || len(f.QVars) != 1 {
 				continue
 			}
-			for _, sk := range sks {
+			for _, sk := range targets {
 				if sk.sort != f.QVars[0][1] {
 					continue
 				}
-				inst := replaceSymbol(f.Args[0].String(), f.QVars[0][0], sk.name)
-				if len(pre) > 0 {
-					var ps []string
-					for _, p := range pre {
-						ps = append(ps, p.String())
-					}
-					inst = "(=> (and " + strings.Join(ps, " ") + ") " + inst + ")"
+				inst := skolemPos(substT(f.Args[0], f.QVars[0][0], Sym(sk.name, sk.sort)), mk(&sink, "isk"))
+				for k := len(pre) - 1; k >= 0; k-- {
+					inst = Implies(pre[k], inst)
 				}
-				body.WriteString("(assert " + inst + ")\n")
+				body.WriteString("(assert " + inst.String() + ")\n")
 				n++
 			}
 		}
-		body.WriteString("(assert (not " + gb + "))\n")
-	} else if goal.Op == "exists" && len(goal.QVars) == 2 && !o.ExpectSat {
-		// two bound variables: instances over pairs of witness constants of the matching sorts
-		body.WriteString("(assert (not " + o.Goal.String() + "))\n")
-		for _, h := range hyps {
-			body.WriteString("(assert " + h.String() + ")\n")
-		}
-		var c0, c1 []string
-		for i, it := range items {
-			if !keep[i] || it.Assert != nil || it.Raw != "" || !strings.HasPrefix(it.Name, "esk!") {
+		// second round: the goal's universals at the witnesses of the assumption instances
+		var sink2 []skc
+		m = 0
+		for _, u := range univ {
+			if len(u.QVars) != 1 {
 				continue
 			}
-			if it.Sort == goal.QVars[0][1] {
-				c0 = append(c0, it.Name)
-			}
-			if it.Sort == goal.QVars[1][1] {
-				c1 = append(c1, it.Name)
-			}
-		}
-		n := 0
-		for _, a := range c0 {
-			for _, b := range c1 {
-				if n > 36 {
-					break
+			for _, c := range sink {
+				if c.sort != u.QVars[0][1] || m > 80 {
+					continue
 				}
-				inst := replaceSymbol(replaceSymbol(goal.Args[0].String(), goal.QVars[0][0], a), goal.QVars[1][0], b)
-				body.WriteString("(assert (not " + inst + "))\n")
-				n++
-			}
-		}
-	} else if goal.Op == "exists" && len(goal.QVars) == 1 && !o.ExpectSat {
-		// the negated goal is a universal fact; add its instances at the index-like constants of the function
-		// (consequences of the negated goal, so sound) to make up for triggers with arithmetic inside
-		body.WriteString("(assert (not " + o.Goal.String() + "))\n")
-		for _, h := range hyps {
-			body.WriteString("(assert " + h.String() + ")\n")
-		}
-		v := goal.QVars[0]
-		n := 0
-		for i, it := range items {
-			if !keep[i] || it.Assert != nil || it.Raw != "" || it.Sort != v[1] || n > 24 {
-				continue
-			}
-			if strings.HasPrefix(it.Name, "i!") || strings.HasPrefix(it.Name, "rangeindex!") || strings.HasPrefix(it.Name, "j!") || strings.HasPrefix(it.Name, "idx!") || strings.HasPrefix(it.Name, "esk!") {
-				body.WriteString("(assert (not " + replaceSymbol(goal.Args[0].String(), v[0], it.Name) + "))\n")
-				n++
-			}
-		}
-	} else {
-		body.WriteString("(assert (not " + o.Goal.String() + "))\n")
-		// existentials in positive position below implications / disjunctions: the negated goal implies the
-		// negation of each of their instances; add those at the witness-like constants
-		if !o.ExpectSat {
-			var exs []*Term
-			var walk func(t *Term)
-			walk = func(t *Term) {
-				switch t.Op {
-				case "=>":
-					if len(t.Args) == 2 {
-						walk(t.Args[1])
-					}
-				case "or":
-					for _, a := range t.Args {
-						walk(a)
-					}
-				case "exists":
-					if len(t.QVars) == 1 {
-						exs = append(exs, t)
-					}
-				}
-			}
-			walk(o.Goal)
-			for _, ex := range exs {
-				v := ex.QVars[0]
-				n := 0
-				for i, it := range items {
-					if !keep[i] || it.Assert != nil || it.Raw != "" || it.Sort != v[1] || n > 24 {
-						continue
-					}
-					if strings.HasPrefix(it.Name, "i!") || strings.HasPrefix(it.Name, "rangeindex!") || strings.HasPrefix(it.Name, "j!") || strings.HasPrefix(it.Name, "idx!") || strings.HasPrefix(it.Name, "esk!") {
-						body.WriteString("(assert (not " + replaceSymbol(ex.Args[0].String(), v[0], it.Name) + "))\n")
-						n++
-					}
-				}
+				inst := skolemPos(substT(u.Args[0], u.QVars[0][0], Sym(c.name, c.sort)), mk(&sink2, "isk"))
+				body.WriteString("(assert " + inst.String() + ")\n")
+				m++
 			}
 		}
 	}
@@ -1127,4 +1181,125 @@ func replaceSymbol(text, from, to string) string {
 		i = j + len(from)
 	}
 	return sb.String()
+}
+
+// substT substitutes the symbol named from by to (term level; quantifiers binding from shadow it).
+func substT(t *Term, from string, to *Term) *Term {
+	switch t.Op {
+	case "sym":
+		if t.Name == from {
+			return to
+		}
+		return t
+	case "lit":
+		return t
+	case "forall", "exists":
+		for _, v := range t.QVars {
+			if v[0] == from {
+				return t
+			}
+		}
+		b := substT(t.Args[0], from, to)
+		if b == t.Args[0] {
+			return t
+		}
+		if t.Op == "forall" {
+			return Forall(t.QVars, b)
+		}
+		return Exists(t.QVars, b)
+	case "opaque", "constarr":
+		if len(t.Args) == 0 {
+			s := replaceSymbol(t.String(), from, to.String())
+			if s == t.String() {
+				return t
+			}
+			n := *t
+			n.str = s
+			n.hq = 0
+			return &n
+		}
+	}
+	if len(t.Args) == 0 {
+		return t
+	}
+	changed := false
+	args := make([]*Term, len(t.Args))
+	for i, a := range t.Args {
+		args[i] = substT(a, from, to)
+		if args[i] != a {
+			changed = true
+		}
+	}
+	if !changed {
+		return t
+	}
+	n := *t
+	n.Args = args
+	n.str = ""
+	n.hq = 0
+	return &n
+}
+
+// skolemPos replaces the existentials in positive position (below and / or / conclusions of implications) by
+// their bodies over fresh constants. The free symbols of t are constants, so no Skolem functions are needed.
+func skolemPos(t *Term, fresh func(sort string) *Term) *Term {
+	if !hasQuant(t) {
+		return t
+	}
+	switch t.Op {
+	case "exists":
+		b := t.Args[0]
+		for _, v := range t.QVars {
+			b = substT(b, v[0], fresh(v[1]))
+		}
+		return skolemPos(b, fresh)
+	case "and", "or":
+		args := make([]*Term, len(t.Args))
+		for i, a := range t.Args {
+			args[i] = skolemPos(a, fresh)
+		}
+		n := *t
+		n.Args = args
+		n.str = ""
+		n.hq = 0
+		return &n
+	case "=>":
+		if len(t.Args) == 2 && !hasQuant(t.Args[0]) {
+			return Implies(t.Args[0], skolemPos(t.Args[1], fresh))
+		}
+	}
+	return t
+}
+
+func hasQuantAny(goal *Term, items []Item, keep []bool) bool {
+	return hasQuant(goal)
+}
+
+var interpretedOps = map[string]bool{"select": true, "store": true, "=": true, "ite": true, "and": true, "or": true, "not": true, "=>": true,
+	"bvadd": true, "bvsub": true, "bvmul": true, "bvsle": true, "bvslt": true, "bvsge": true, "bvsgt": true, "bvule": true, "bvult": true,
+	"bvuge": true, "bvugt": true, "concat": true, "+": true, "-": true, "<": true, "<=": true, ">": true, ">=": true, "distinct": true}
+
+// argPositions records "f#i" for every application f(..., x, ...) of an uninterpreted f with the symbol x as i-th argument.
+func argPositions(t *Term, x string, out map[string]bool) {
+	if t == nil {
+		return
+	}
+	for i, a := range t.Args {
+		if a.Op == "sym" && a.Name == x && !interpretedOps[t.Op] && t.Op != "forall" && t.Op != "exists" && !strings.HasPrefix(t.Op, "(_") {
+			out[fmt.Sprintf("%s#%d", t.Op, i)] = true
+		}
+		argPositions(a, x, out)
+	}
+}
+
+func groundArgsAt(t *Term, want map[string]bool, emit func(*Term)) {
+	if t == nil {
+		return
+	}
+	for i, a := range t.Args {
+		if want[fmt.Sprintf("%s#%d", t.Op, i)] {
+			emit(a)
+		}
+		groundArgsAt(a, want, emit)
+	}
 }
